@@ -15,7 +15,7 @@ from concurrent.futures import ThreadPoolExecutor
 from pathlib import Path
 
 V = Path(__file__).resolve().parent.parent
-OUT = Path("/tmp/mut_out")
+OUT = Path(os.environ.get("MUT_OUT", "/tmp/mut_out"))
 
 
 def sh(cmd, timeout=1800):
